@@ -2136,6 +2136,11 @@ impl Check for C05 {
                                 if let Err(m) = c05_bed_q(&mut cr, name, s, e, &file_items[ci]) {
                                     out.fail("cached_index_search_differs_from_linear_scan", &[], format!("same query repeated: {}", m));
                                 }
+                                // calls that move the underlying source without the cache knowing
+                                // (the summary and the item count are read through `raw_reader`)
+                                let _ = cr.get_summary();
+                                let _ = cr.item_count();
+                                out.count("cached_histories_with_a_metadata_call", 1);
                                 for (cj, nm) in names.iter().enumerate() {
                                     if let Err(m) = c05_bed_q(&mut cr, nm, 0, len, &file_items[cj]) {
                                         out.fail(
